@@ -127,6 +127,7 @@ type e3 struct {
 	impls        map[string][]*types.Func
 	nWrites      int
 	busy         map[string]bool
+	busyHits     int // number of times a cycle guard cut a classification short (such results are not memoised)
 	memo         map[memoKey]cls
 	rawIdent     map[memoKey]cls
 	escapes      map[string][]escapeSite
@@ -360,8 +361,11 @@ func (c *e3) classify(fn *Func, e ast.Expr, depth int) cls {
 	if v, ok := c.memo[k]; ok {
 		return v
 	}
+	before := c.busyHits
 	v := c.classify1(fn, e, depth)
-	c.memo[k] = v
+	if c.busyHits == before {
+		c.memo[k] = v
+	}
 	return v
 }
 
@@ -393,6 +397,7 @@ func (c *e3) classify1(fn *Func, e ast.Expr, depth int) cls {
 			}
 			key := fmt.Sprintf("v%p", o)
 			if c.busy[key] {
+				c.busyHits++
 				return cl(oImm)
 			}
 			c.busy[key] = true
@@ -512,6 +517,7 @@ func (c *e3) fieldClassEx(fn *Func, x ast.Expr, name string, whole ast.Expr, dep
 	info := fn.Info()
 	key := "f" + pathOf(info, x) + "." + name + fmt.Sprintf("%p%v", fn, asBase)
 	if c.busy[key] {
+		c.busyHits++
 		return cl(oImm)
 	}
 	c.busy[key] = true
